@@ -25,6 +25,11 @@ def obligations(tier):
     # the Hexital's own timeframe coarser than a member's: the member's candle list is LONGER than the base list
     for kind, name, kw, fields in (SPECS[1], SPECS[2], SPECS[9]):
         obs.append(Ob(f"{spec_name((kind, name, kw))}/hexital-T4-member-T2/n=9", dict(spec=[kind, name, kw], fields=fields, tf="T2", n=9, hextf="T4"), CFG, weight=30, budget_s=900, max_paths=100000))
+    # a member without a timeframe of its own inside a Hexital that collapses to T2, next to a member that explicitly asks for
+    # that very timeframe (two candle lists with the same timeframe exist side by side)
+    for kind, name, kw, fields in (SPECS[1], SPECS[2]):
+        for pf in (False, True):
+            obs.append(Ob(f"{spec_name((kind, name, kw))}/hexital-T2 + partner explicitly on T2/partner-first={pf}/n=7", dict(spec=[kind, name, kw], fields=fields, tf=None, n=7, hextf="T2", partner_tf="T2", partner_first=pf), CFG, weight=30, budget_s=900, max_paths=100000))
     # the same agreement at every point of a live history (open-bucket merges at constant length, lifespan trimming,
     # recalculation): an accessor that answers from remembered state goes stale exactly there
     for kind, name, kw, fields in SPECS[:4] + SPECS[7:8]:
@@ -135,7 +140,8 @@ def run(ctx, P):
     extra = dict(timeframe=tf) if tf else {}
     ind = build_any(spec, **extra)
     if P.get("hextf"):
-        hx = Hexital("hx", [], [ind, build("EMA", dict(period=3))], timeframe=P["hextf"])
+        partner = build("EMA", dict(period=3), **({"timeframe": P["partner_tf"]} if P.get("partner_tf") else {}))
+        hx = Hexital("hx", [], [ind, partner] if not P.get("partner_first") else [partner, ind], timeframe=P["hextf"])
         for c in clone(cs):
             hx.append(c)
     else:
